@@ -1,9 +1,11 @@
 (* C02 — every violated rule is reported exactly once, in order; nil iff none.  Statements only. *)
 From PGV Require Import Base.Bytes Base.GoStr Base.GoNum Base.Utf8.
+From PGV Require Import Extracted.SourceConst.
 From PGV Require Import Model.RuleText Model.Value Model.Clause Model.Rules Model.Walk.
 From Coq Require Import Sorted.
 From PGV Require Import Proofs.RuleContract Proofs.WalkProofs Proofs.WalkProofs2.
-From PGV Require Import Spec.WalkAddr Proofs.WalkAddrProofs.
+From PGV Require Import Spec.WalkAddr Proofs.WalkAddrProofs Proofs.FlatWalkProofs.
+From PGV Require Import Base.Url.
 
 (* the result is nil exactly when no clause was written and no group is violated *)
 Theorem C02_nil_iff : forall b, get_error b = ONil <-> (b_cl b = [] /\ eval_groups (rev (b_gr b)) = []).
@@ -101,14 +103,14 @@ Local Open Scope string_scope.
 Definition ex_cfg : cfg := {| c_tag := s2b "valid"; c_typed := []; c_unscoped := None; c_local := []; c_global := []; c_orc := no_oracles |}.
 Definition ex_fi (n t : String.string) : finfo := {| f_name := s2b n; f_tags := [(s2b "valid", s2b t)]; f_time := false |}.
 Definition ex_inner (a : String.string) (n : Z) : val :=
-  VStruct {| s_name := s2b "In"; s_tstr := s2b "main.In" |}
+  VStruct {| s_name := s2b "In"; s_tstr := s2b "main.In"; s_id := s2b "main.In" |}
     [(ex_fi "A" "to=2~3|MA,required|MR", VStr (s2b a)); (ex_fi "N" "ge=5|MN", VInt WInt n)].
 Definition ex_outer : val :=
-  VPtr (VStruct {| s_name := s2b "Out"; s_tstr := s2b "main.Out" |}
+  VPtr (VStruct {| s_name := s2b "Out"; s_tstr := s2b "main.Out"; s_id := s2b "main.Out" |}
     [(ex_fi "S" "le=2|MS", VStr (s2b "abc"));
      (ex_fi "L" "required|ML", VSlice false KStruct (s2b "main.In") [ex_inner "ab" 7; ex_inner "abcd" 3])]).
 Example C02_walk_example :
-  map fst (enum_top ex_cfg 10 (VStruct {| s_name := s2b "Out"; s_tstr := s2b "main.Out" |}
+  map fst (enum_top ex_cfg 10 (VStruct {| s_name := s2b "Out"; s_tstr := s2b "main.Out"; s_id := s2b "main.Out" |}
     [(ex_fi "S" "le=2|MS", VStr (s2b "abc"));
      (ex_fi "L" "required|ML", VSlice false KStruct (s2b "main.In") [ex_inner "ab" 7; ex_inner "abcd" 3])]))
   = [[0;0]; [1;0]; [1;0;0;0;0]; [1;0;0;0;1]; [1;0;0;1;0]; [1;0;1;0;0]; [1;0;1;0;1]; [1;0;1;1;0]]%nat /\
@@ -119,3 +121,33 @@ Example C02_walk_example :
           s2b "Out.L[1].A" ++ US :: s2b "abcd" ++ US :: s2b "C:explain: MA";
           s2b "Out.L[1].N" ++ US :: s2b "3" ++ US :: s2b "C:explain: MN"].
 Proof. vm_compute. repeat split; reflexivity. Qed.
+
+(* THE OTHER THREE ENTRY POINTS, at full strength.  var_out / map_out / url_out say what ONE rule
+   instance writes by itself (no buffer).  valid.Var, valid.Map on a string-keyed map and valid.Url
+   return exactly the concatenation of those contributions in rule order, entry by entry /
+   parameter by parameter in the order presented, group clauses last, nil iff none. *)
+Theorem C02_var_exact : forall c rules v, wf_val v = true -> remove_ptr v <> VInvalid ->
+  var_supported (kind (remove_ptr v)) = true ->
+  rm_get (rm_set [] validVarFieldName rules) validVarFieldName <> [] ->
+  var_valid c rules (Some v) =
+    Ok (outcome_of (flat_map (var_out c (remove_ptr v))
+                             (names_split COMMA (rm_get (rm_set [] validVarFieldName rules) validVarFieldName))) []).
+Proof. exact var_valid_exact. Qed.
+Print Assumptions C02_var_exact.
+Theorem C02_map_exact : forall c rules v isnil t es, wf_val v = true -> rules <> [] ->
+  remove_ptr v = VMap isnil KString t es ->
+  map_valid c rules (Some v) =
+    Ok (outcome_of
+          (flat_map (fun e => flat_map (fun vn => fst (map_out c [] (str_of (fst e)) (snd e) vn)) (entry_rules rules (str_of (fst e)))) es)
+          (flat_map (fun e => flat_map (fun vn => snd (map_out c [] (str_of (fst e)) (snd e) vn)) (entry_rules rules (str_of (fst e)))) es)).
+Proof. exact map_valid_exact. Qed.
+Print Assumptions C02_map_exact.
+Theorem C02_url_exact : forall c rules s dec, query_unescape s = inl dec ->
+  let query := match index QMARK dec with Some i => skipn (i + 1) dec | None => [] end in
+  query <> [] ->
+  url_valid c rules (Some (VStr s)) =
+    Ok (outcome_of
+          (flat_map (fun q => flat_map (fun vn => fst (url_out c (param_key q) (param_val q) vn)) (entry_rules rules (param_key q))) (split query AMP))
+          (flat_map (fun q => flat_map (fun vn => snd (url_out c (param_key q) (param_val q) vn)) (entry_rules rules (param_key q))) (split query AMP))).
+Proof. exact url_valid_exact. Qed.
+Print Assumptions C02_url_exact.
